@@ -4,7 +4,7 @@
 (*    steps : << edit | [a |-> "reload", arg, obs] >>]                                         *)
 (* The first step is the initial load (a reload with arg "" from no contexts).  obs is the     *)
 (* projection of the real state after the reload and one "ping" / "tick" event:                *)
-(*   ctx : name -> [path, gen, mtime, cfg, seen, imports, inst, started], n, log (contexts executed  *)
+(*   ctx : name -> [path, gen, mtime, cfg, seen, wr, now, imports, inst, started], n, log (contexts executed *)
 (*   by this reload, in order), hits / ticks : name -> counter kept in the context's globals   *)
 (*   by its event trigger / by the task it started when it was loaded.                         *)
 (* Every reload step is judged on its own, from the OBSERVED state before it:                  *)
@@ -18,18 +18,20 @@ EXTENDS ReloadCore, Json, IOUtils
 Cases == JsonDeserialize(IOEnv.CASES)
 
 ToSet(s) == { s[i] : i \in 1..Len(s) }
-ConvFile(x) == [ex |-> x.ex, hash |-> x.hash, gen |-> x.gen, mtime |-> x.mtime, imps |-> ToSet(x.imps)]
+ConvFile(x) == [ex |-> x.ex, hash |-> x.hash, gen |-> x.gen, mtime |-> x.mtime, imps |-> ToSet(x.imps), wr |-> x.wr]
 ConvFiles(fs) == [p \in PathSet |-> ConvFile(fs[p])]
-ConvCtx(x) == [path |-> x.path, gen |-> x.gen, mtime |-> x.mtime, cfg |-> x.cfg, seen |-> x.seen, imports |-> ToSet(x.imports),
+ConvCtx(x) == [path |-> x.path, gen |-> x.gen, mtime |-> x.mtime, cfg |-> x.cfg, seen |-> x.seen, wr |-> x.wr, now |-> x.now, imports |-> ToSet(x.imports),
                inst |-> x.inst, started |-> x.started]
 ConvObs(o) == [ctx |-> OverCtx([c \in CtxNames |-> ConvCtx(o.ctx[c])]), n |-> o.n, log |-> o.log,
                hits |-> OverCtx([c \in CtxNames |-> o.hits[c]]), ticks |-> OverCtx([c \in CtxNames |-> o.ticks[c]])]
-ConvAct(a) == IF a.a \in {"modify", "create"} THEN [a |-> a.a, p |-> a.p, gen |-> a.gen, mtime |-> a.mtime, imps |-> ToSet(a.imps)] ELSE a
+ConvAct(a) == IF a.a \in {"modify", "create"} THEN [a |-> a.a, p |-> a.p, gen |-> a.gen, mtime |-> a.mtime, imps |-> ToSet(a.imps), wr |-> a.wr] ELSE a
 Obs0 == [ctx |-> NoCtx, n |-> 0, log |-> <<>>, hits |-> [c \in CtxNames |-> 0], ticks |-> [c \in CtxNames |-> 0]]
 
 Matches(r, o) == r.ctx = o.ctx /\ r.n = o.n /\ r.log = o.log
 Explaining(F, H, G, pre, arg, o) == { fl \in SUBSET AllFlags : Matches(Mechanism(F, H, G, pre.ctx, pre.n, arg, fl), o) }
-Smallest(S) == CHOOSE fs \in S : \A g \in S : Cardinality(fs) <= Cardinality(g)
+\* (a step that the deviations of the current tree explain is attributed to those, not to a hypothetical one)
+Smallest(S) == LET T == IF \E fs \in S : fs \subseteq CodeFlags THEN { fs \in S : fs \subseteq CodeFlags } ELSE S
+               IN CHOOSE fs \in T : \A g \in T : Cardinality(fs) <= Cardinality(g)
 SetToSeq(S) == LET RECURSIVE F(_)
                    F(T) == IF T = {} THEN <<>> ELSE LET x == CHOOSE y \in T : TRUE IN <<x>> \o F(T \ {x})
                IN F(S)
@@ -38,6 +40,8 @@ StateKept(pre, o) ==
      LET new == o.ctx[c].inst > pre.n IN
      /\ o.hits[c]  = (IF new THEN 0 ELSE pre.hits[c]) + (IF o.ctx[c].started THEN 1 ELSE 0)
      /\ o.ticks[c] = (IF new THEN 0 ELSE pre.ticks[c]) + 1
+     \* its variable pyscript.app_config holds what it was handed and what its own code wrote into it since
+     /\ o.ctx[c].now = NowOf(o.ctx[c].seen, o.ctx[c].wr, o.ctx[c].started)
 
 \* verdict on one reload step
 Judge(F, H, G, pre, arg, o, s1on) ==
